@@ -295,6 +295,14 @@ int run_scan(const Args& a) {
                     alloc::watch_window(false);
                     std::size_t steps = 0;
                     while (s == status::OK) {
+                        if (getenv("VERIF_DEBUG_STACK") != nullptr && u.index.find(ctx->full_key()) == u.index.end()) {
+                            std::string dbg;
+                            for (std::size_t q = 0; q < ctx->stack_size(); ++q) {
+                                auto& e = ctx->stack_at(q);
+                                dbg += "[" + hex(std::string(reinterpret_cast<const char*>(&e.key.get_key_slice()), 8)) + "/" + std::to_string(e.key.get_key_length()) + " root=" + std::to_string(e.layer_root->get_version_root()) + " rootdel=" + std::to_string(e.layer_root->get_version_deleted()) + " bndel=" + std::to_string(e.bn->get_version_deleted()) + " rank=" + std::to_string(e.bi.perm_rank) + "]";
+                            }
+                            fprintf(stderr, "DBG steps=%zu r2l=%d stack=%s\n", steps, rec.r2l ? 1 : 0, dbg.c_str());
+                        }
                         validate(ctx->full_key(), static_cast<char*>(v), 0, false);
                         ++steps;
                         if (stop_after != 0 && steps >= stop_after) {
